@@ -463,6 +463,8 @@ def default_profile():
         p_many_adapters=0.004,
         p_tty=0.15,
         p_stdin=0.07,
+        p_devnull=0.0,
+        p_case_name=0.0,  # (C15) two adapter names that differ only in case  # (C04, C05, C06) redirect files sent to /dev/null
         p_emfile=0.08,
         p_same_name=0.0,  # (C15 only) demultiplexing: two different adapters that share a name (one file)
         p_adapter_file=0.12,  # (only when adapters are named) give one group of adapters as file:adapters.fasta
@@ -775,7 +777,7 @@ def gen_case(rng, profile=None):
     rb = rng.random()
     big = 2 if rb < P["p_huge"] else (1 if rb < P["p_huge"] + P["p_big"] else 0)
     want_same_name = demux == "normal" and rng.random() < P["p_same_name"]
-    if want_same_name and not big and rng.random() < 0.3:
+    if want_same_name and not big and rng.random() < 0.2:
         # names that share a file matter once the file is larger than the writers' buffers
         big = 1
     if big:
@@ -800,6 +802,13 @@ def gen_case(rng, profile=None):
                         r_[qi] = gen_qual(rng, L) + r_[qi]
     inp = gen_input(rng, paired, fastq, P["in_containers"], p_interleaved_fasta=P["p_interleaved_fasta"],
                     p_comments_two_files=P["p_comments_two_files"], p_stdin=P["p_stdin"])
+    if inp.get("stdin") == "pipe" and records and not big and rng.random() < 0.12:
+        # a long read arriving through a pipe (its record is larger than the pipe's 64 KiB capacity)
+        r_ = rng.choice(records)
+        L = rng.randint(40000, 120000)
+        r_[3] = rand_seq(rng, L) + r_[3]
+        if r_[4] is not None:
+            r_[4] = gen_qual(rng, L) + r_[4]
     if inp["layout"] == "interleaved" or interleaved_out:
         outs.append(["--interleaved"])
     if inp["layout"] == "interleaved" and paired and not interleaved_out and demux != "combinatorial":
@@ -826,6 +835,15 @@ def gen_case(rng, profile=None):
                 if g[0] in ("-a", "-g", "-b") and g[1].startswith(old + "="):
                     g[1] = names1[j_] + "=" + g[1][len(old) + 1 :]
             names1[k_] = names1[j_]
+    elif demux == "normal" and len(names1) >= 2 and not aux_files and rng.random() < P["p_case_name"]:
+        # two sample names that differ only in letter case are two samples (two files)
+        k_, j_ = rng.sample(range(len(names1)), 2)
+        old, new = names1[k_], (names1[j_] or "").upper()
+        if old is not None and new and new not in names1:
+            for g in opts:
+                if g[0] in ("-a", "-g", "-b") and g[1].startswith(old + "="):
+                    g[1] = new + "=" + g[1][len(old) + 1 :]
+            names1[k_] = new
     if demux == "normal" and names1 and rng.random() < P["p_unknown_name"] and (
         untrimmed_mode == "discard_untrimmed" or (untrimmed_mode == "untrimmed_output" and not paired)
     ):
@@ -838,6 +856,23 @@ def gen_case(rng, profile=None):
                 g[1] = "unknown=" + g[1][len(old) + 1 :]
         for pth in list(aux_files):
             aux_files[pth] = aux_files[pth].replace(f">{old}\n", ">unknown\n")
+    if rng.random() < P["p_devnull"]:
+        # a redirect file nobody wants to keep: /dev/null for the file, for one mate's file or for both
+        for f1, f2 in (("--too-short-output", "--too-short-paired-output"), ("--too-long-output", "--too-long-paired-output"),
+                       ("--untrimmed-output", "--untrimmed-paired-output")):
+            g1 = next((g for g in outs if g[0] == f1), None)
+            g2 = next((g for g in outs if g[0] == f2), None)
+            if g1 is None or demux or rng.random() < 0.4:
+                continue
+            r_ = rng.random()
+            if g2 is None or r_ < 0.3:
+                g1[1] = "/dev/null"
+                if g2 is not None:
+                    g2[1] = "/dev/null"
+            elif r_ < 0.65:
+                g1[1] = "/dev/null"
+            else:
+                g2[1] = "/dev/null"
     case = {
         "fmt": "fastq" if fastq else "fasta",
         "paired": paired,
